@@ -3,7 +3,7 @@
    lsqr monotonicity and lsqr's cost = SciPy r1norm are harness comparisons
    (LSQR is not modelled). *)
 From Coq Require Import QArith Qcanon.
-From PV Require Import Dict Vec Dot Mat QcInst Check CG CGLS CGLSFacts CGLSMono.
+From PV Require Import Dict Vec Dot Mat QcInst Check CG CGLS CGLSFacts CGLSMono OMP.
 Import ListNotations.
 
 (* cg: |cost| = 1 + iiter, iiter <= niter, the callback receives exactly x_1..x_iiter in order,
@@ -98,6 +98,26 @@ Theorem C10_cgls_functional_monotone :
           (lsfun O A y damp (cl_x O (cgls_iter O absf n A k (cgls_setup O absf n A y x0 damp)))).
 Proof. exact cgls_functional_monotone. Qed.
 Print Assumptions C10_cgls_functional_monotone.
+
+(* omp / mp (model Solvers/OMP.v, shared with C14): along every run of the coded loop the cost history IS the list of
+   residual norms of the successive iterates (one entry for the start + one per step) and iiter counts the steps —
+   also when a column is selected more than once (the trace relation allows any maximiser, [cols] grows only on new columns) *)
+Theorem C10_omp_cost_truthful : forall (F : OrdField) nrm n A y nc nout sigma inner,
+  wfM F n A -> length y = length A ->
+  (forall cs, length (inner cs) = length cs) ->       (* oracle: lsqr / cgls on the restricted operator ... *)
+  (forall cs, NoDup cs -> Forall (fun j => j < n)%nat cs -> forall j, In j cs ->
+     dotu F (col F j A) (vsub F y (mv F (cols_mat A cs) (inner cs))) = r0 F) ->   (* ... solves the restricted normal equations *)
+  forall s tr, trace F nrm n A y nc nout sigma (step_omp F nrm A y inner) (s :: tr) ->
+  cost F s = rev (map (fun t => nrm (resid F A y (finalize F n t))) (s :: tr)) /\ iiter F s = length tr.
+Proof. exact omp_cost_truthful. Qed.
+Print Assumptions C10_omp_cost_truthful.
+
+Theorem C10_mp_cost_truthful : forall (F : OrdField) nrm n A y nc nout sigma,
+  wfM F n A -> length y = length A ->
+  forall s tr, trace F nrm n A y nc nout sigma (step_mp F nrm A) (s :: tr) ->
+  cost F s = rev (map (fun t => nrm (resid F A y (finalize F n t))) (s :: tr)) /\ iiter F s = length tr.
+Proof. exact mp_cost_truthful. Qed.
+Print Assumptions C10_mp_cost_truthful.
 
 Example C10_hypotheses_satisfiable :
   wfM QcF 2 eA /\ length ey = length eA /\ (forall v : list QcF, absR (dot QcF v v) = dot QcF v v) /\
